@@ -126,6 +126,65 @@ func %s() {
 `, same, name, same)
 		fam.Instances = append(fam.Instances, Instance{Func: name, Stratum: "Execute:remove-resend", Desc: fmt.Sprintf("removal, re-send of a survivor (same salience %v), sort model", same), Expect: []string{"executed"}})
 	}
+	// a rule whose work (and failure) sits in a method call inside a conc block: the next rule starts only after it
+	b.WriteString(`
+type slowObj struct{ fail bool }
+
+func (o *slowObj) Work() {
+	vnd.Event("work.s")
+	if o.fail {
+		panic("work failed")
+	}
+	vnd.Event("work.e")
+}
+
+func H_ConcMethodInRule() {
+	p, b := vnd.Bool("p"), vnd.Bool("b")
+	dc := newDC(allFalse(2))
+	dc.Add("o", &slowObj{fail: p})
+	rb := buildText(dc, "rule \"r0\" salience 9 begin\n ev(\"r0.s\")\n conc {\n  o.Work()\n  k = 1\n }\n ev(\"r0.e\")\nend\nrule \"r1\" salience 5 begin\n ev(\"r1.s\")\n ev(\"r1.e\")\nend\n")
+	eng := engine.NewGengine()
+	err := eng.Execute(rb, b)
+	vnd.Event("ret")
+	vnd.Quiesce()
+	vnd.Reach("executed")
+	vnd.RequireJoined("ret")
+	if vnd.Count("r1.s") > 0 {
+		if p {
+			vnd.RequireOrder("work.s", "r1.s")
+		} else {
+			vnd.RequireOrder("work.e", "r1.s")
+		}
+	}
+	vnd.StopIfViolated()
+	vnd.Assert(vnd.Iff(err != nil, p), "error iff a started rule failed")
+	vnd.Assert(vnd.Count("work.s") == 1, "the member runs once")
+	vnd.Assert(vnd.Iff(vnd.Count("r0.e") == 1, vnd.Not(p)), "a failed rule stops at the failure")
+	vnd.Assert(vnd.Iff(vnd.Count("r1.s") == 1, vnd.Or(vnd.Not(p), b)), "the next rule runs as the policy prescribes")
+}
+`)
+	fam.Instances = append(fam.Instances, Instance{Func: "H_ConcMethodInRule", Stratum: "Execute:conc-member", Desc: "sort model, first rule's work and failure inside a conc method call", Expect: []string{"executed"}})
+	// six installed rules; the lowest or the third one re-sent with another (symbolic, possibly tying) salience
+	for _, which := range []int{5, 2} {
+		name := fmt.Sprintf("H_ResendOfSix_%d", which)
+		fmt.Fprintf(&b, `
+// six rules at 60..10, rule %d re-sent incrementally with a symbolic salience, then the sort model
+func %s() {
+	n := 6
+	s := []int64{60, 50, 40, 30, 20, 10}
+	f := allFalse(n)
+	rb := build(n, s, f)
+	s[%d] = vnd.Int64("q")
+	vnd.Assume(vnd.And(s[%d] >= 0, s[%d] <= 70))
+	must(rb.BuildRuleWithIncremental(oneRule(%d, s[%d], "")), "incremental build")
+	eng := engine.NewGengine()
+	err := eng.Execute(rb, true)
+	vnd.Reach("executed")
+	checkSorted(vnd.Trace(), n, allTrue(n), s, f, true, err)
+}
+`, which, name, which, which, which, which, which)
+		fam.Instances = append(fam.Instances, Instance{Func: name, Stratum: "Execute:resend-six", Desc: fmt.Sprintf("six rules, rule %d re-sent with a symbolic salience in 0..70, sort model", which), Expect: []string{"executed"}})
+	}
 	// a rule without a salience clause has salience 0 wherever it stands in the text; a rule failing inside a for body fails
 	b.WriteString(`
 func H_DefaultSalience() {
